@@ -55,8 +55,15 @@ func runC12Live(cfg *RunCfg) {
 	distinct := DistinctSet{}
 	for i := 0; i < cfg.N; i++ {
 		ids := make([]byte, r.Intn(7))
+		if r.Intn(12) == 0 { // the documented maximum and its neighbours
+			ids = make([]byte, PickLen(r, []int{253, 254, 255}))
+		}
 		for k := range ids {
-			ids[k] = valid[r.Intn(len(valid))]
+			if len(ids) > 6 {
+				ids[k] = valid[r.Intn(3)]
+			} else {
+				ids[k] = valid[r.Intn(len(valid))]
+			}
 		}
 		class := r.Intn(7)
 		method, body := echoName, []byte(`{"a":1}`)
@@ -65,6 +72,9 @@ func runC12Live(cfg *RunCfg) {
 		name := "ok"
 		switch class {
 		case 1:
+			if len(ids) > 250 {
+				break
+			}
 			added = make([]byte, 1+r.Intn(2))
 			for k := range added {
 				added[k] = valid[r.Intn(4)]
